@@ -25,7 +25,7 @@ OMEN_A = dict(R.DEFAULT_OMEN, keyspace={1: 3, 2: 3, 3: 2}, omen_prob=[(1, .125),
 
 
 def specs(tier):
-    t0, t1 = D.TERMINALS
+    t0, t1 = D.TERMINALS[0], D.TERMINALS[1]
     tie = dict(t0)
     tie['C'] = {1: [('L', .5), ('U', .5)], 2: [('LL', .25), ('UL', .25), ('LU', .25), ('UU', .25)]}
     tie['A'] = {1: [('a', .5), ('b', .5)], 2: [('ab', .5), ('cd', .5)]}
